@@ -71,7 +71,7 @@ Section Close.
     match run_m fo rf (set_nested s rest) with
     | ROk _ s1 => context_close fo rf s = ROk tt (close_state s1 prev) /\
                   R2 cs di (set_nested s rest) s1
-    | RErr k p s1 => context_close fo rf s = RErr k p s1
+    | RErr k p s1 => context_close fo rf s = RErr k p (set_nested s1 (prev :: rest))
     | RPanic => context_close fo rf s = RPanic
     | RUnsup => context_close fo rf s = RUnsup
     end.
@@ -83,7 +83,9 @@ Section Close.
       apply (context_close_meta fo rf s prev rest s1 En Hm Er).
       pose proof (R2_keep _ _ _ _ (Pre2_set_nested _ _ _ rest P) H1) as ([_ W1] & E1 & E2 & L1 & L2 & Hcd1 & _).
       unfold closable. rewrite E1, E2. repeat split; try assumption. apply W1.
-    - apply (context_close_meta_err fo rf s prev rest k p s1 En Hm Er).
+    - rewrite (context_close_meta_err fo rf s prev rest k p s1 En Hm Er).
+      pose proof (run_m_fr fo rf (set_nested s rest)) as Fr. rewrite Er in Fr. cbn [res_all] in Fr.
+      destruct Fr as (_ & N1 & _). cbn [set_nested nested] in N1. rewrite N1. reflexivity.
     - unfold context_close. rewrite En. cbv zeta. change (cx (set_nested s rest)) with (cx s).
       unfold is_meta in Hm. rewrite Hm, Er. reflexivity.
     - unfold context_close. rewrite En. cbv zeta. change (cx (set_nested s rest)) with (cx s).
